@@ -31,6 +31,7 @@ def sources_of(case):
 
 
 _SHARED = {}
+KEEP_DIFFS = []
 
 
 def shared_network(case):
@@ -51,7 +52,15 @@ def impl_keep_only(case, block_ids):
     keep = [net[i].element for i in block_ids]
     n1 = trf.short_circuitify_voltage_sources(net, keep=keep)
     n2 = trf.open_circuitify_current_sources(n1, keep=keep)
-    return netgen.network_to_case(n2)
+    out = netgen.network_to_case(n2)
+    # the sources to keep named by EQUAL elements that are other objects (taken from a second construction of the same network, as a
+    # caller who loads the description twice would): the same sources stay
+    fresh = netgen.impl_network(case)
+    keep2 = [fresh[i].element for i in block_ids]
+    out2 = netgen.network_to_case(trf.open_circuitify_current_sources(trf.short_circuitify_voltage_sources(net, keep=keep2), keep=keep2))
+    if out2 != out:
+        KEEP_DIFFS.append((list(block_ids), out2))
+    return out
 
 
 def flows(case, impl):
@@ -137,6 +146,11 @@ def examine_case(ctx, case, rng):
     for blk in blocks:
         try:
             sub = impl_keep_only(case, blk)
+            if KEEP_DIFFS:
+                ctx.violation('C04:sources-to-keep-matched-by-object-identity', f'keep={blk} given as equal elements of a second construction of the '
+                              f'network leaves another network than the same list given as the network\'s own element objects',
+                              {'network': case, 'block': blk})
+                del KEEP_DIFFS[:]
         except Exception as e:  # noqa: BLE001
             ctx.violation('C04:zeroing-raises', f'source zeroing raised {type(e).__name__}', {'network': case, 'block': blk})
             okblocks = False
